@@ -32,6 +32,34 @@ def run(ctx):
     res.extra["outcomes"] = {k: sum(1 for e in evs if e["outcome"] == k) for k in ("ok", "err", "timeout", "panic")}
     res.assumptions = ["timeout configured to 1 s (in-package: dialer.Timeout); bound: 3 timeouts per hop, measured in whole timeouts",
                        "a response counts as whole once its JSON object (or, for a redirect, its Location line) has been delivered"]
+    # pub level: a page of a collection that fails to load must become an error item, not a crash
+    import random
+    rnd = random.Random(ctx.seed)
+    sessions = []
+    for i in range(40 if q else 400):
+        k = rnd.randint(1, 5)
+        pages = [{"n": rnd.randint(0, 2), "next": (p + 2 if p < k - 1 else -1)} for p in range(k)]
+        sessions.append({"pages": pages, "sizes": [rnd.randint(0, 4) for _ in range(rnd.randint(1, 4))]})
+    pevs, prc, ptxt = run_harness(ctx, "pub", "TestVerifPaging", {"sessions": sessions, "random": 0}, timeout=900, allow_fail=True)
+    pbad, r3 = vlib.judge(ctx, "T_Paging", "T_Paging.cfg", pevs, name="T_Paging_faults")
+    pdone = [e for e in pevs if e["ev"] == "paging"]
+    res.traces += len(pdone)
+    for e in pdone:
+        res.case(["paging", e["pages"], [c["n"] for c in e["calls"]], e["embedded"]])
+    res.extra["collection_pages_failing_to_load"] = len(pdone)
+    for b in pbad:
+        e = pevs[b["line"] - 1]
+        if b["why"] == "panic":
+            path = vlib.save_replay(ctx.pid, "paging-s%d" % e["sid"], e)
+            res.violations.append(({"monitor": "T_Paging", "why": "panic"}, path, "panic while a collection page failed to load: %s" % e.get("what")))
+    if prc != 0:
+        begun = [e for e in pevs if e["ev"] == "begin"]
+        if "panic:" in ptxt and begun:
+            path = vlib.save_replay(ctx.pid, "paging-crash-s%d" % begun[-1]["sid"], {"session": begun[-1], "output": ptxt[-3000:]})
+            res.violations.append(({"monitor": "crash", "why": "process died"}, path,
+                                   "the process crashed when a collection page failed to load: layout %s" % begun[-1]["pages"]))
+        else:
+            raise vlib.Inconclusive("paging harness failed:\n" + ptxt[-2000:])
     for b in bad:
         e = evs[b["line"] - 1]
         sig = {"monitor": "T_Faults", "why": b["why"], "kind": e["kind"], "after_handshake": e["stage"] not in ("connect", "handshake")}
